@@ -6,6 +6,7 @@ import ast
 from .. import terms as tm
 from ..loader import AnalysisError
 from ..report import rule
+from .common import module_constant
 from ..terms import App, Attr, Idx, Lst, Range, Slc, Sym, Tup
 
 STACK = "data_preparation.stack_training_data"
@@ -125,8 +126,7 @@ def r4(ctx):
         locs = ana.res.local_names(f)
         for n in ast.walk(f.node):
             if isinstance(n, ast.Name) and isinstance(n.ctx, ast.Load) and n.id not in locs and n.id in mod.globals:
-                st = mod.globals[n.id]
-                if not (isinstance(st, ast.Assign) and isinstance(st.value, ast.Constant) and mod.global_assign_count.get(n.id, 0) == 1):
+                if not module_constant(mod, n.id):
                     reads.append((f, n))
     for f, n in reads:
         ctx.fail(f, f"`{n.id}` is a module-level variable read by a data-preparation helper (results would depend on earlier calls)",
